@@ -632,6 +632,20 @@ def c12_raising(tier, rnd):
             for k in al.dom:
                 al.dom[k] = al.dom[k] + [EXC(c)]
             progs.append(program(items, al.dom, fam="C12:%s:%s%s" % (c, "+".join(sub), ":entities" if ent else (":whitespace" if ws else ""))))
+    # the same expression text -- with a prefix that parses its own remainder (not:, string:, exists:, a prefixed
+    # alternative) -- at several places of one template; any occurrence may be the one that fails, and the report names
+    # the place of THAT occurrence
+    for c in (EXC12 if tier != "quick" else EXC12[:2]):
+        for kind in ("not", "string", "pipe", "structure"):
+            al = Alloc("quick")
+            call = al.call("content", [S("a"), EXC(c)])
+            e = {"not": not_(call), "string": strx(litp(), call, litp()), "pipe": pipe(var("y"), wrap("pyprefix", call)),
+                 "structure": call}[kind]
+            st = kind == "structure"
+            items = [Text("pre\n  "), Open(sub=("content", st, e), sattr=["class"]), Text("old"), CLOSE, Text("\n\n   "),
+                     Open(name="p", cond=e if kind == "not" else NOE, sattr=[]), Text("k\n ", e), CLOSE, Text("\n"),
+                     Open(name="ul", sub=("content", st, e), dattr=[("title", e)], sattr=[]), Text("old"), CLOSE, Text("post", e)]
+            progs.append(program(items, al.dom, fam="C12:%s:same-text:%s" % (c, kind)))
     return progs
 
 
